@@ -213,4 +213,14 @@ pub fn gen_c03(em: &mut Emitter, rng: &mut Rng) {
     run_suite::<Ps>(em, rng, "ps", n);
     equality_graphs::<Bbs>(em, rng, "bbs");
     equality_graphs::<Ps>(em, rng, "ps");
+    // equal signed values in other representations / at other positions, schema taken from its wire form
+    let base = 2 * n + 8;
+    if em.mine(base) {
+        crate::c05::c09_representations::<Bbs>(em, &mut rng.sub(9005), "bbs", "c03");
+        crate::c05::equality_positions::<Bbs>(em, &mut rng.sub(9007), "bbs", "c03");
+    }
+    if em.mine(base + 1) {
+        crate::c05::c09_representations::<Ps>(em, &mut rng.sub(9006), "ps", "c03");
+        crate::c05::equality_positions::<Ps>(em, &mut rng.sub(9008), "ps", "c03");
+    }
 }
